@@ -30,7 +30,7 @@ MCNP_ARITY = {
     'sx': [2], 'sy': [2], 'sz': [2], 'c/x': [3], 'c/y': [3], 'c/z': [3],
     'cx': [1], 'cy': [1], 'cz': [1], 'k/x': [4, 5], 'k/y': [4, 5],
     'k/z': [4, 5], 'kx': [2, 3], 'ky': [2, 3], 'kz': [2, 3], 'sq': [10],
-    'gq': [10], 'tx': [6], 'ty': [6], 'tz': [6], 'x': [2, 4, 6],
+    'gq': [10], 'tx': [5, 6], 'ty': [5, 6], 'tz': [5, 6], 'x': [2, 4, 6],
     'y': [2, 4, 6], 'z': [2, 4, 6],
     'box': [12], 'rpp': [6], 'sph': [4], 'rcc': [7], 'hex': [9, 15],
     'rhp': [9, 15], 'rec': [10, 12], 'trc': [8], 'ell': [7], 'wed': [12],
@@ -570,3 +570,465 @@ def gen_valid_deck(rng, features=None):
     deck['cells'] = cells
     deck['features'] = sorted(features)
     return deck
+
+
+# ---------------------------------------------------------------------------
+# fault injection: every function returns [(faulted deck, where)] for the
+# applicable cards of the deck (possibly none)
+# ---------------------------------------------------------------------------
+import copy
+
+
+def _clone(deck):
+    return copy.deepcopy(deck)
+
+
+def _twelve(rng):
+    _, entries = tr_entries(rng, 12, star=False)
+    return entries
+
+
+def _angles12(rng):
+    _, entries = tr_entries(rng, 12, star=True)
+    return entries
+
+
+def _set_opt(cell, old_re, new):
+    '''Replace the part of the option string matching old_re by new (or append
+    when old_re is None).'''
+    if old_re is None:
+        cell['opts'] = (new + ' ' + cell['opts']).strip()
+    else:
+        cell['opts'], n = re.subn(old_re, lambda _m: new, cell['opts'], count=1)
+        assert n == 1, (old_re, cell['opts'])
+
+
+FILL_N_RE = r'\*?fill=\d+( \([^)]*\))?'     # FILL=n with optional transformation
+TRCL_RE = r'\*?trcl=(\d+|\([^)]*\))'
+
+
+def f_tr_card_m(deck, rng):
+    '''TR card with 13 entries and m != 1.'''
+    out = []
+    cards = list(range(len(deck['trs'])))
+    for k in cards or [None]:
+        d = _clone(deck)
+        if k is None:
+            d['trs'].append({'id': 77, 'star': False, 'entries': _twelve(rng)})
+            k = 0
+        tr = d['trs'][k]
+        if len(tr['entries']) == 3:
+            tr['entries'] += [1.0, 0.0, 0.0, 0.0, 1.0, 0.0, 0.0, 0.0, 1.0] \
+                if not tr['star'] else [0.0, 90.0, 90.0, 90.0, 0.0, 90.0, 90.0, 90.0, 0.0]
+        tr['entries'] = tr['entries'][:12] + [rng.choice([-1.0, -1.0, 0.0, 2.0])]
+        out.append((d, f'tr{tr["id"]}'))
+    return out
+
+
+def _fill_cells(deck, lattice=None):
+    out = []
+    for k, cell in enumerate(deck['cells']):
+        if re.search(r'fill=\d+( |$)', cell['opts']):
+            is_lat = 'lat=' in cell['opts']
+            if lattice is None or lattice == is_lat:
+                out.append(k)
+    return out
+
+
+def f_inline_fill_m(deck, rng, star=False):
+    '''FILL=n (o1 o2 o3 b1..b9 m) with m != 1, inline.'''
+    out = []
+    for k in _fill_cells(deck, lattice=False):
+        d = _clone(deck)
+        cell = d['cells'][k]
+        univ = re.search(r'fill=(\d+)', cell['opts']).group(1)
+        entries = (_angles12(rng) if star else _twelve(rng)) + [-1]
+        _set_opt(cell, FILL_N_RE, ('*' if star else '') + f'fill={univ} ('
+                 + ' '.join(num(v) for v in entries) + ')')
+        out.append((d, f'cell {cell["id"]}'))
+    return out
+
+
+def f_inline_fill_m_star(deck, rng):
+    return f_inline_fill_m(deck, rng, star=True)
+
+
+def _trcl_candidates(deck):
+    '''Universe-0, unfilled, non-lattice cells with at least one literal whose
+    first literal is not a quadric or torus.'''
+    kinds = {s['id']: s['mn'] for s in deck['surfs']}
+    out = []
+    for k, cell in enumerate(deck['cells']):
+        if re.search(r'fill|lat=|u=', cell['opts']) or not cell['lits']:
+            continue
+        if any(kinds[abs(l[0])] in ('sq', 'gq', 'tx', 'ty', 'tz')
+               for l in cell['lits']):
+            continue
+        out.append(k)
+    return out
+
+
+def f_inline_trcl_m(deck, rng, star=False):
+    '''TRCL=(o1 o2 o3 b1..b9 m) with m != 1, inline.'''
+    out = []
+    for k in _trcl_candidates(deck)[:3]:
+        d = _clone(deck)
+        cell = d['cells'][k]
+        entries = (_angles12(rng) if star else _twelve(rng)) + [-1]
+        text = ('*' if star else '') + 'trcl=(' + ' '.join(
+            num(v) for v in entries) + ')'
+        if 'trcl' in cell['opts']:
+            _set_opt(cell, TRCL_RE, text)
+        else:
+            _set_opt(cell, None, text)
+        out.append((d, f'cell {cell["id"]}'))
+    return out
+
+
+def f_inline_trcl_m_star(deck, rng):
+    return f_inline_trcl_m(deck, rng, star=True)
+
+
+def _lat_cells(deck):
+    return [k for k, c in enumerate(deck['cells']) if 'lat=' in c['opts']]
+
+
+def f_lattice_no_opt(deck, rng):
+    '''LAT=1 FILL=n lattice without its --lattice option.'''
+    out = []
+    for k in _lat_cells(deck):
+        d = _clone(deck)
+        cell = d['cells'][k]
+        if re.search(r'fill=-?\d+:', cell['opts']):
+            # array form -> homogeneous form, no option given
+            _set_opt(cell, r'fill=[-0-9: r]*', 'fill=1 ')
+            cell['opts'] = cell['opts'].replace('  ', ' ')
+        d['latopts'] = [o for o in d['latopts']
+                        if not o.startswith(f'{cell["id"]},')]
+        out.append((d, f'cell {cell["id"]}'))
+    return out
+
+
+def _ranges_text(ranges):
+    return ' '.join(f'{lo}:{hi}' for lo, hi in ranges)
+
+
+def f_lattice_dims(deck, rng):
+    '''Ranges of the wrong dimensionality for the lattice cell: fewer ranges
+    than lattice directions, or more with a different number of non-trivial
+    ones.'''
+    out = []
+    for k in _lat_cells(deck):
+        cell0 = deck['cells'][k]
+        ndim = cell0['ndim']
+        choices = []
+        for nd in range(1, ndim):
+            choices.append([(0, 1)] * nd)               # too few ranges
+            choices.append([(0, rng.choice([0, 2]))] * nd)
+        for nd in range(ndim + 1, 4):
+            choices.append([(0, 1)] * nd)               # too many non-trivial
+            if nd - 2 >= 1 and nd - 2 != ndim:
+                choices.append([(0, 0)] * 2 + [(0, 1)] * (nd - 2))
+        if ndim == 1:
+            choices.append([(0, 0), (0, 1), (0, 1)])
+        for ranges in rng.sample(choices, min(2, len(choices))):
+            d = _clone(deck)
+            cell = d['cells'][k]
+            _set_ranges(d, cell, ranges)
+            out.append((d, f'cell {cell["id"]} ranges {ranges} ndim {ndim}'))
+    return out
+
+
+def _set_ranges(d, cell, ranges):
+    size = 1
+    for lo, hi in ranges:
+        size *= hi - lo + 1
+    if re.search(r'fill=-?\d+:', cell['opts']):
+        m = re.search(r'fill=((?:-?\d+:-?\d+ )+)(\d+)', cell['opts'])
+        univ = m.group(2)
+        _set_opt(cell, r'fill=[-0-9: r]*', 'fill=' + _ranges_text(ranges)
+                 + ' ' + ' '.join([univ] * size) + ' ')
+        cell['opts'] = cell['opts'].strip()
+    else:
+        d['latopts'] = [o for o in d['latopts']
+                        if not o.startswith(f'{cell["id"]},')]
+        d['latopts'].append(f'{cell["id"]},' + ','.join(
+            f'{lo}:{hi}' for lo, hi in ranges))
+    cell['ranges'] = ranges
+
+
+def f_lattice_trailing(deck, rng):
+    '''Leading trivial ranges and trailing non-trivial ones for a lattice of
+    lower dimensionality (e.g. 0:0 0:1 0:1 for an x-y lattice): the number of
+    non-trivial ranges is right, the surplus range is not trivial.'''
+    out = []
+    for k in _lat_cells(deck):
+        ndim = deck['cells'][k]['ndim']
+        if ndim == 3:
+            continue
+        ranges = [(0, 0)] * (3 - ndim) + [(0, 1)] * ndim
+        d = _clone(deck)
+        cell = d['cells'][k]
+        _set_ranges(d, cell, ranges)
+        out.append((d, f'cell {cell["id"]} ranges {ranges} ndim {ndim}'))
+    return out
+
+
+def f_surface_arity(deck, rng):
+    '''Wrong number of parameters on an elementary surface card.'''
+    out = []
+    cands = [k for k, s in enumerate(deck['surfs']) if s['mn'] not in MACROS]
+    for k in rng.sample(cands, min(3, len(cands))):
+        d = _clone(deck)
+        surf = d['surfs'][k]
+        ok = MCNP_ARITY[surf['mn']]
+        n = len(surf['params'])
+        delta = rng.choice([-1, 1, 1, 2, 3])
+        m = n + delta
+        while m in ok or m < 1:
+            m += 1
+        if m < n:
+            surf['params'] = surf['params'][:m]
+        else:
+            surf['params'] = surf['params'] + filler_params(m - n, rng)
+        out.append((d, f'surface {surf["id"]} {surf["mn"]} with {m} parameters'))
+    return out
+
+
+def f_macro_arity(deck, rng):
+    out = []
+    cands = [k for k, s in enumerate(deck['surfs']) if s['mn'] in MACROS]
+    for k in rng.sample(cands, min(3, len(cands))):
+        d = _clone(deck)
+        surf = d['surfs'][k]
+        ok = MCNP_ARITY[surf['mn']]
+        n = len(surf['params'])
+        m = n + rng.choice([-1, 1, -2, 2, 3])
+        while m in ok or m < 1:
+            m += 1
+        surf['params'] = surf['params'][:m] if m < n \
+            else surf['params'] + filler_params(m - n, rng)
+        out.append((d, f'macrobody {surf["id"]} {surf["mn"]} with {m} parameters'))
+    return out
+
+
+UNKNOWN_MN = ['foo', 'pw', 'cc', 'sxx', 'rc', 'boxx', 'k/w', 'c/', 'q', 'gqq',
+              'tor', 'w', 'pp', 'hexa']
+
+
+def f_unknown_mnemonic(deck, rng):
+    out = []
+    for k in rng.sample(range(len(deck['surfs'])), min(2, len(deck['surfs']))):
+        d = _clone(deck)
+        surf = d['surfs'][k]
+        surf['mn'] = rng.choice(UNKNOWN_MN)
+        out.append((d, f'surface {surf["id"]} mnemonic {surf["mn"]}'))
+    return out
+
+
+def _plain_cells(deck):
+    '''Universe-0 cells without FILL/LAT/TRCL and not referenced by #n of a
+    transformed cell: their literals go through pot_expand_surfs.'''
+    out = []
+    for k, cell in enumerate(deck['cells']):
+        if re.search(r'fill|lat=|u=|trcl', cell['opts']) or not cell['lits']:
+            continue
+        if re.search(r'imp:n=0', cell['opts']) or cell.get('imp') == 0:
+            continue
+        out.append(k)
+    return out
+
+
+def f_facet_range(deck, rng, zero=False):
+    '''Facet index beyond the facets of the surface (k = n+1, n+2, ...).'''
+    out = []
+    surfs = {s['id']: s for s in deck['surfs']}
+    for k in _plain_cells(deck)[:3]:
+        d = _clone(deck)
+        cell = d['cells'][k]
+        j = rng.randrange(len(cell['lits']))
+        surf = surfs[abs(cell['lits'][j][0])]
+        nfac = n_facets(surf)
+        cone2 = (surf['mn'] in ('k/x', 'k/y', 'k/z') and len(surf['params']) == 5) \
+            or (surf['mn'] in ('kx', 'ky', 'kz') and len(surf['params']) == 3) \
+            or (surf['mn'] in ('x', 'z') and len(surf['params']) == 4)
+        if surf['mn'] not in MACROS:
+            # MCNP has facets on macrobodies only; the converter numbers the
+            # TRIPOLI-4 pieces of a one-nappe cone too
+            nfac = 2 if cone2 else 1
+        cell['lits'][j][1] = 0 if zero else min(9, nfac + rng.choice([1, 1, 2, 5]))
+        out.append((d, f'cell {cell["id"]} literal {lit_text(cell["lits"][j])} '
+                       f'({surf["mn"]}, {nfac} facets)'))
+    return out
+
+
+def f_facet_zero(deck, rng):
+    return f_facet_range(deck, rng, zero=True)
+
+
+def f_facet_range_trcl(deck, rng):
+    '''Facet beyond the range in a cell that carries a TRCL.'''
+    out = []
+    surfs = {s['id']: s for s in deck['surfs']}
+    for k, cell0 in enumerate(deck['cells']):
+        if 'trcl' not in cell0['opts'] or not cell0['lits']:
+            continue
+        d = _clone(deck)
+        cell = d['cells'][k]
+        surf = surfs[abs(cell['lits'][0][0])]
+        cell['lits'][0][1] = min(9, n_facets(surf) + rng.choice([1, 2, 7]))
+        out.append((d, f'cell {cell["id"]} literal {lit_text(cell["lits"][0])}'))
+    return out
+
+
+def _array_cells(deck):
+    return [k for k, c in enumerate(deck['cells'])
+            if re.search(r'fill=-?\d+:', c['opts'])]
+
+
+def f_fill_array_len(deck, rng, delta=None):
+    '''FILL array shorter/longer than its ranges.'''
+    out = []
+    for k in _array_cells(deck):
+        deltas = [delta] if delta is not None else \
+            rng.sample([-1, -2, 1, 2, 4, 5, 7], 3)
+        for dl in deltas:
+            d = _clone(deck)
+            cell = d['cells'][k]
+            m = re.search(r'fill=((?:-?\d+:-?\d+ )+)([-0-9r ]*?)( imp|$)', cell['opts'])
+            ranges, array = m.group(1), m.group(2).split()
+            if any(t.endswith('r') for t in array):
+                univ = array[0]
+                size = 1
+                for lo, hi in cell['ranges']:
+                    size *= hi - lo + 1
+                array = [univ] * size
+            if dl < 0:
+                if len(array) + dl < 1:
+                    continue
+                array = array[:dl]
+            else:
+                # surplus values: 1 would be read as a TR number
+                array = array + [str(rng.choice([40, 41, 45]))] * dl
+            _set_opt(cell, r'fill=((?:-?\d+:-?\d+ )+)([-0-9r ]*?)(?= imp|$)',
+                     'fill=' + ranges + ' '.join(array))
+            out.append((d, f'cell {cell["id"]} array length {dl:+d}'))
+    return out
+
+
+def f_fill_array_plus3(deck, rng):
+    return f_fill_array_len(deck, rng, delta=3)
+
+
+def f_imp_unequal(deck, rng):
+    '''IMP cards of unequal lengths.'''
+    d = _clone(deck)
+    n = len(d['cells'])
+    if not d['impcards']:
+        for cell in d['cells']:
+            cell['opts'] = re.sub(r' ?imp:n=\d+', '', cell['opts']).strip()
+        d['impcards'].append(['imp:n', [str(c['imp']) for c in d['cells']]])
+    if len(d['impcards']) == 1:
+        d['impcards'].append(['imp:p', [str(c['imp']) for c in d['cells']]])
+    k = rng.randrange(2)
+    toks = d['impcards'][k][1]
+    if rng.random() < 0.5 and len(toks) > 1:
+        d['impcards'][k][1] = toks[:-rng.choice([1, min(2, len(toks) - 1)])]
+    else:
+        d['impcards'][k][1] = toks + ['1'] * rng.choice([1, 2])
+    return [(d, f'{d["impcards"][k][0]} with {len(d["impcards"][k][1])} '
+                f'entries for {n} cells')]
+
+
+def f_imp_short(deck, rng):
+    '''A single IMP card shorter than the number of cells (no inline IMP).'''
+    d = _clone(deck)
+    for cell in d['cells']:
+        cell['opts'] = re.sub(r' ?imp:n=\d+', '', cell['opts']).strip()
+    vals = [str(c['imp']) for c in d['cells']]
+    d['impcards'] = [['imp:n', vals[:-rng.choice([1, 1, 2])] or ['1']]]
+    if len(d['impcards'][0][1]) >= len(vals):
+        return []
+    return [(d, f'imp:n with {len(d["impcards"][0][1])} entries for '
+                f'{len(vals)} cells')]
+
+
+def f_mixed_fractions(deck, rng):
+    d = _clone(deck)
+    if not d['mats']:
+        d['mats'].append([rng.randint(50, 60), gen_material(rng)])
+    k = rng.randrange(len(d['mats']))
+    toks = d['mats'][k][1]
+    idx = [i for i, t in enumerate(toks) if '=' not in t]
+    fracs = idx[1::2]
+    if len(fracs) < 2:
+        toks += ['8016', toks[fracs[0]]]
+        idx = [i for i, t in enumerate(toks) if '=' not in t]
+        fracs = idx[1::2]
+    j = rng.choice(fracs)
+    toks[j] = toks[j][1:] if toks[j].startswith('-') else '-' + toks[j]
+    return [(d, f'm{d["mats"][k][0]} fraction {toks[j]}')]
+
+
+BAD_LATOPT = ['{c}', '{c},', '{c},0:1,0:1,0:1,0:1', 'x{c},0:1', '{c},0-1',
+              '{c},0:1:2', '{c},0:1.5', '{c},a:b', '{c};0:1', '{c},0:1,0:',
+              '{c} 0:1', ',0:1', '{c},0:1,,0:1', '{c}.0,0:1', '{c},0:1e1']
+
+
+def f_latopt_malformed(deck, rng):
+    '''Malformed --lattice argument.'''
+    out = []
+    cells = _lat_cells(deck)
+    cid = deck['cells'][cells[0]]['id'] if cells else deck['cells'][0]['id']
+    for tmpl in rng.sample(BAD_LATOPT, 3):
+        d = _clone(deck)
+        d['latopts'] = list(d['latopts']) + [tmpl.format(c=cid)]
+        if rng.random() < 0.5:
+            d['latopts'].reverse()
+        out.append((d, f'--lattice {tmpl.format(c=cid)!r}'))
+    return out
+
+
+def f_lattice_nsurf(deck, rng):
+    '''Lattice cell bounded by an odd number of planes.'''
+    out = []
+    for k in _lat_cells(deck):
+        d = _clone(deck)
+        cell = d['cells'][k]
+        if rng.random() < 0.5 and len(cell['lits']) > 1:
+            cell['lits'] = cell['lits'][:-1]
+        else:
+            extra = [s for s in d['surfs'] if s['mn'] in ('px', 'py', 'pz', 'p')
+                     and all(abs(l[0]) != s['id'] for l in cell['lits'])]
+            if not extra:
+                continue
+            cell['lits'].append([-extra[0]['id'], None])
+        out.append((d, f'cell {cell["id"]} with {len(cell["lits"])} surfaces'))
+    return out
+
+
+# class name -> (injector, features the deck needs, narrow known-finding
+# classifier or None)
+FAULTS = {
+    'tr_card_m': (f_tr_card_m, ['tr']),
+    'inline_fill_m': (f_inline_fill_m, ['fill']),
+    'inline_fill_m_star': (f_inline_fill_m_star, ['fill']),
+    'inline_trcl_m': (f_inline_trcl_m, []),
+    'inline_trcl_m_star': (f_inline_trcl_m_star, []),
+    'lattice_no_opt': (f_lattice_no_opt, ['lat']),
+    'lattice_dims': (f_lattice_dims, ['lat']),
+    'lattice_trailing': (f_lattice_trailing, ['lat']),
+    'lattice_nsurf': (f_lattice_nsurf, ['lat']),
+    'surface_arity': (f_surface_arity, []),
+    'macro_arity': (f_macro_arity, []),
+    'unknown_mnemonic': (f_unknown_mnemonic, []),
+    'facet_range': (f_facet_range, ['facets']),
+    'facet_zero': (f_facet_zero, ['facets']),
+    'facet_range_trcl': (f_facet_range_trcl, ['trcl', 'facets']),
+    'fill_array_len': (f_fill_array_len, ['lat']),
+    'fill_array_plus3': (f_fill_array_plus3, ['lat']),
+    'imp_unequal': (f_imp_unequal, []),
+    'imp_short': (f_imp_short, []),
+    'mixed_fractions': (f_mixed_fractions, ['mats']),
+    'latopt_malformed': (f_latopt_malformed, []),
+}
